@@ -104,7 +104,9 @@ func NewProcess(opts ...ProcOpts) *Process {
 
 func (p *Process) run() int {
 	verifYield("run.enter", p.getName())
-	if p.isState(types.ProcessStateTerminating) {
+	if p.wasStoppedBeforeStart() {
+		// nothing was launched, so there is nothing left to terminate
+		p.onProcessEnd(types.ProcessStateCompleted)
 		return 0
 	}
 	verifYield("run.afterTerminatingCheck", p.getName())
@@ -494,7 +496,12 @@ func (p *Process) onProcessEnd(state string) {
 	}
 	// no-op if the ready log line was already seen
 	p.readyLogCancelFn(fmt.Errorf("process %s ended", p.getName()))
-	p.setState(state)
+	if state == types.ProcessStateTerminating {
+		// marks a process stopped before it started; it may have moved on meanwhile
+		p.setStateIf(types.ProcessStatePending, state)
+	} else {
+		p.setState(state)
+	}
 	p.updateProcState()
 
 	p.Lock()
@@ -692,6 +699,21 @@ func (p *Process) isOneOfStates(states ...string) bool {
 		}
 	}
 	return false
+}
+
+// wasStoppedBeforeStart tells whether this instance was stopped while it was still pending.
+// The status alone cannot tell: it is shared with older and newer instances of the process.
+func (p *Process) wasStoppedBeforeStart() bool {
+	return p.isStopped.Load()
+}
+
+func (p *Process) setStateIf(from, to string) {
+	p.stateMtx.Lock()
+	defer p.stateMtx.Unlock()
+	if p.procState.Status == from {
+		p.procState.Status = to
+		p.onStateChange(to)
+	}
 }
 
 func (p *Process) setState(state string) {
